@@ -84,11 +84,12 @@ A_PRE = ('A-bs4-preorder: el.descendants is the pre-order flattening of el\'s su
          'function; what is proved about it is desc_def (pre-order, iframe subtrees passed over)')
 
 CP = 'soupsieve.css_parser.CSSParser.'
-PARSE_SMALL = [CP + 'parse_class_id@id', CP + 'parse_class_id@class', CP + 'parse_pseudo_dir', CP + 'parse_pseudo_lang', CP + 'parse_pseudo_contains']
+PARSE_SMALL = [CP + 'parse_class_id@id', CP + 'parse_class_id@class', CP + 'parse_pseudo_dir', CP + 'parse_pseudo_lang', CP + 'parse_pseudo_contains',
+               CP + 'parse_tag_pattern', CP + 'parse_pseudo_open', CP + 'parse_pseudo_class']
 A_TOK = ('parse_* contracts: the match object is any match of the token pattern with its look-arounds dropped (a superset of the real matches, so what is proved of '
          'all of them holds of the real ones); each token finditer yields is such a match at its start offset; warnings.warn returns None (default filters); '
          'structural obligations C06.S-token-flags/-token-table/-dispatch tie the sidecar patterns to SelectorPattern and to the dispatch in parse_selectors; '
-         'parse_selectors, parse_attribute_selector, parse_pseudo_class(_custom), parse_pseudo_nth, parse_pseudo_open, the combinator methods and selector_iter are not under discharged contracts')
+         'parse_selectors (named result ps_result, explicit token consumption), parse_attribute_selector (operator templates only), parse_pseudo_class_custom, parse_pseudo_nth, the combinator methods and selector_iter are not under discharged contracts')
 
 
 def dispatch_structural(ctx):
